@@ -26,6 +26,9 @@ thread_local! {
     static WAKE_MD: std::cell::Cell<Option<&'static MainDevice<'static>>> = const { std::cell::Cell::new(None) };
     /// (slot, status of the slot at the moment its waiting task was woken)
     static WAKE_LOG: std::cell::RefCell<Vec<(usize, u8)>> = const { std::cell::RefCell::new(Vec::new()) };
+    /// the task of slot i has been woken since its last poll began (it is scheduled to be polled
+    /// again; the registered waker has been consumed)
+    static SCHEDULED: std::cell::RefCell<[bool; 16]> = const { std::cell::RefCell::new([false; 16]) };
 }
 
 /// The waker of the task waiting on one slot: notes what the woken task would find if it ran at once.
@@ -34,6 +37,7 @@ impl Wake for SlotWake {
     fn wake(self: Arc<Self>) {
         let st = WAKE_MD.with(|m| m.get().map(|md| md.verif_slot(self.0).0).unwrap_or(255));
         WAKE_LOG.with(|l| l.borrow_mut().push((self.0, st)));
+        SCHEDULED.with(|s| s.borrow_mut()[self.0 & 15] = true);
     }
 }
 
@@ -526,7 +530,7 @@ impl World {
         if code == 1 && bytes.len() >= 16 {
             let plen = (u16::from_le_bytes([bytes[14], bytes[15]]) & 0x7ff) as usize;
             for k in 0..self.n {
-                if after[k].0 == 6 && before[k].0 != 6 && self.waiting[k] && !windowed && !self.in_window && !wakes.iter().any(|(s, _)| *s == k) {
+                if after[k].0 == 6 && before[k].0 != 6 && self.waiting[k] && !windowed && !self.in_window && !wakes.iter().any(|(s, _)| *s == k) && !SCHEDULED.with(|s| s.borrow()[k & 15]) {
                     self.oracle.push(format!("no-wake: a response was accepted into slot {} but the task waiting on it was not woken", k));
                 }
                 if after[k].0 == 6 && before[k].0 != 6 {
@@ -589,6 +593,7 @@ impl World {
         WAKE_MD.with(|m| m.set(Some(self.md)));
         let waker = Arc::new(SlotWake(i)).into();
         let mut cx = Context::from_waker(&waker);
+        SCHEDULED.with(|s| s.borrow_mut()[i & 15] = false);
         let r = Pin::new(&mut h.fut).poll(&mut cx);
         self.win_poll = false;
         if r.is_pending() { self.waiting[i] = true; } else { self.waiting[i] = false; }
